@@ -228,6 +228,17 @@ class Check:
             okc, chk_report = coqchk(prop, self.obligations)
             if not okc:
                 broken_obl = [("coqchk", "independent re-check failed or reports axioms", "; ".join(chk_report)[:300])]
+        slow_report = None
+        if tier == "thorough" and getattr(self, "slow_files", None) and not broken_obl:
+            # bounded-exhaustive theorems that are too slow for the default build (coq/slow, compiled against coq/main)
+            slow_report = []
+            sdir = os.path.join(build.COQ, "slow")
+            for f in self.slow_files:
+                rc, out = build.sh("timeout 3000 coqc -Q %s '' -Q . '' %s.v" % (os.path.join(build.COQ, "main"), f), cwd=sdir, timeout=3100)
+                ok = rc == 0 and "Closed under the global context" in out and "Axioms:" not in out
+                slow_report.append("%s: %s" % (f, "compiled, closed under the global context" if ok else "FAILED " + out[-300:]))
+                if not ok:
+                    broken_obl.append(("slow", f, "does not compile or is not closed"))
         model_ok = st.get("driver") == 0
         jobs = self.jobs(seed, tier)
         # 2. correspondence, 3. judge
@@ -355,6 +366,8 @@ class Check:
         }
         if chk_report is not None:
             cov["coqchk"] = chk_report
+        if slow_report is not None:
+            cov["slow_theorems"] = slow_report
         cov.update(self.extra_coverage(st))
         write_evidence(prop, tier, seed, self.level, cov, self.assumptions, time.time() - t0, nviol)
         if rc == 0:
